@@ -12,6 +12,10 @@
 (*   AddVariable(a)   S.AddVariable(a.body, '', a.eqn)                                 *)
 (*   SetRHS(a)        S.SetEquationRightHandSide(a.body, a.eqn)   (variable exists)    *)
 (*   Exclude(a)       model.AddCashFlowIncomeExclusion(<S | T | O by a.who>, a.body)    *)
+(*   AddVarFromEqn(a) S.AddVariableFromEquation(Equation(a.body))  (no stored term)     *)
+(*   AddTerm(a)       S.AddTermToEquation(a.body, <sign spelling of the name a.eqn>)    *)
+(*                    (variable exists): a definition built term by term on top of what  *)
+(*                    the variable was declared with; like terms accumulate and cancel   *)
 (*   AddCashFlow(a)   S.AddCashFlow(TermText(a), eqn = a.eqn if a.he else None,        *)
 (*                                  is_income = a.inc)                                 *)
 (* An action is a record [op, s1, br, s2, body, he, eqn, inc, who] (IsAct).  A flow    *)
@@ -58,26 +62,30 @@ Placeholders == {"", "0.0"}
 ZeroSpelled  == {"0", "0."}
 RealDefs     == {D1, D2, D3, D4, D5}
 Eqns  == Placeholders \cup RealDefs \cup ZeroSpelled
+TBodies == {"Z", "W"}           \* names that AddTermToEquation adds to a flow variable's definition
 Signs == {"", "+", "-"}
 Sectors == {"S", "T", "O"}      \* this sector; its twin (same Code, other Country); another Code
 
 IsAct(a) ==
     /\ DOMAIN a = {"op", "s1", "br", "s2", "body", "he", "eqn", "inc", "who"}
-    /\ a.op \in {"CF", "AV", "SR", "EX"}
+    /\ a.op \in {"CF", "AV", "SR", "EX", "AT", "AQ"}
     /\ a.s1 \in Signs /\ a.s2 \in Signs /\ a.br \in BOOLEAN /\ (a.br \/ a.s2 = "")
-    /\ a.body \in Bodies /\ a.eqn \in Eqns
+    /\ a.body \in Bodies /\ a.eqn \in (IF a.op = "AT" THEN TBodies ELSE Eqns)
     /\ a.he \in BOOLEAN /\ a.inc \in BOOLEAN /\ a.who \in Sectors
     /\ a.op = "CF" => /\ a.he => a.body \in FlowNames      \* "the flow variable" of a product is not a variable
                       /\ ~a.he => a.eqn = ""
                       /\ a.who = "S"
     /\ a.op \in {"AV", "SR"} => a.body \in FlowNames /\ a.he /\ a.s1 = "" /\ ~a.br /\ a.inc /\ a.who = "S"
     /\ a.op = "EX" => ~a.he /\ a.eqn = "" /\ a.s1 = "" /\ ~a.br /\ a.inc
+    /\ a.op = "AT" => a.body \in FlowNames /\ a.he /\ a.inc /\ a.who = "S"    \* a.eqn: the name added, s1/br/s2 its sign
+    /\ a.op = "AQ" => a.body \in FlowNames /\ ~a.he /\ a.eqn = "" /\ a.s1 = "" /\ ~a.br /\ a.inc /\ a.who = "S"
 
 ASSUME \A a \in Alphabet : IsAct(a)
 
 SignOf(s) == IF s = "-" THEN -1 ELSE 1
 Coef(a) == SignOf(a.s1) * SignOf(a.s2)
-TermText(a) == a.s1 \o (IF a.br THEN "(" \o a.s2 \o a.body \o ")" ELSE a.body)
+TermText(a) == LET x == IF a.op = "AT" THEN a.eqn ELSE a.body
+               IN a.s1 \o (IF a.br THEN "(" \o a.s2 \o x \o ")" ELSE x)
 
 ----------------------------------------------------------------------------
 (* valuations.  Quotient flows make ledger values rational, so every ledger value is    *)
@@ -134,14 +142,26 @@ DenF(bag, v)   == DenLag(v) + SumBag(Bodies, bag, v)      \* F starts as the sin
 EmptyBag == [b \in Bodies |-> 0]
 
 ----------------------------------------------------------------------------
-(* definition state of a flow variable *)
-Absent == [k |-> "absent", d |-> ""]
+(* definition state of a flow variable: what it was declared / set with (the opaque      *)
+(* head: k, d) and the bag t of terms added by AddTermToEquation.  The right-hand side    *)
+(* renders as head text followed by the signed terms; a term whose coefficient is 0        *)
+(* renders as nothing, and an empty rendering as '0.0'.                                    *)
+ZeroT == [b \in TBodies |-> 0]
+Absent == [k |-> "absent", d |-> "", t |-> ZeroT]
 ClassOfEqn(q) ==
-    IF q = "" THEN [k |-> "empty", d |-> ""]
-    ELSE IF q = "0.0" THEN [k |-> "zero", d |-> ""]
-    ELSE [k |-> "defined", d |-> q]
-DefStates == {Absent} \cup { ClassOfEqn(q) : q \in Eqns }
-Blank(c) == c.k \in {"absent", "empty", "zero"}     \* what AddCashFlow may define
+    IF q = "" THEN [k |-> "empty", d |-> "", t |-> ZeroT]
+    ELSE IF q = "0.0" THEN [k |-> "zero", d |-> "", t |-> ZeroT]
+    ELSE [k |-> "defined", d |-> q, t |-> ZeroT]
+IsDef(c) == /\ DOMAIN c = {"k", "d", "t"}
+            /\ c.k \in {"absent", "empty", "zero", "defined"} /\ c.d \in Eqns
+            /\ DOMAIN c.t = TBodies /\ \A b \in TBodies : c.t[b] \in Int
+            /\ c.k = "absent" => c.t = ZeroT
+NoTerms(c) == \A b \in TBodies : c.t[b] = 0            \* none added, or all cancelled
+(* class of the WHOLE rendered right-hand side, which is what AddCashFlow has to go by *)
+Eff(c) == IF c.k = "absent" \/ NoTerms(c) THEN c.k ELSE "defined"
+Blank(c) == Eff(c) \in {"absent", "empty", "zero"}     \* what AddCashFlow may define
+DenTerms(c, v) == 4 * (c.t["Z"] * v.Z + c.t["W"] * v.W)
+DenOfDef(c, v) == (IF c.k = "defined" THEN DenDef(c.d, v) ELSE 0) + DenTerms(c, v)   \* 4-fold value
 
 ----------------------------------------------------------------------------
 (* the operations, on a state record s = [defs, F, INC, excl, exclO, log] *)
@@ -155,6 +175,14 @@ SetRHSOp(s, a) ==
     [s EXCEPT !.defs = [s.defs EXCEPT ![a.body] = ClassOfEqn(a.eqn)],
               !.log  = Append(s.log, [a |-> a, ex |-> FALSE])]
 
+AddVarFromEqnOp(s, a) ==        \* an Equation object without terms: renders '0.0', no opaque head is stored
+    [s EXCEPT !.defs = [s.defs EXCEPT ![a.body] = ClassOfEqn("")],
+              !.log  = Append(s.log, [a |-> a, ex |-> FALSE])]
+
+AddTermOp(s, a) ==              \* Equation.AddTerm: like terms accumulate; the opaque head is never a like term
+    [s EXCEPT !.defs = [s.defs EXCEPT ![a.body].t[a.eqn] = s.defs[a.body].t[a.eqn] + Coef(a)],
+              !.log  = Append(s.log, [a |-> a, ex |-> FALSE])]
+
 ExcludeOp(s, a) ==
     [s EXCEPT !.excl  = IF a.who = "S" THEN s.excl \cup {a.body} ELSE s.excl,
               !.exclO = IF a.who = "S" THEN s.exclO ELSE s.exclO \cup {<< a.who, a.body >>},
@@ -162,7 +190,9 @@ ExcludeOp(s, a) ==
 
 (* AddCashFlow: the term goes into F; into INC if is_income and the (sign-stripped) term *)
 (* is not excluded for this sector object now; then, with a defining expression, the flow       *)
-(* variable is created, or defined if its right-hand side renders as '' / '0.0'.         *)
+(* variable is created, or defined if its WHOLE right-hand side renders as '' / '0.0'    *)
+(* (Blank: also a term-by-term definition that has cancelled; not a placeholder head      *)
+(* that has got terms since).                                                            *)
 AddCashFlowOp(s, a) ==
     LET c     == Coef(a)
         exNow == a.body \in s.excl
@@ -180,9 +210,11 @@ DoOp(s, a) ==
       [] a.op = "SR" -> SetRHSOp(s, a)
       [] a.op = "EX" -> ExcludeOp(s, a)
       [] a.op = "CF" -> AddCashFlowOp(s, a)
+      [] a.op = "AQ" -> AddVarFromEqnOp(s, a)
+      [] a.op = "AT" -> AddTermOp(s, a)
 
 ----------------------------------------------------------------------------
-VARIABLES defs,     \* flow name -> Absent / empty / zero / defined(d)
+VARIABLES defs,     \* flow name -> [k: absent / empty / zero / defined, d: head text, t: added terms]
           pdefs,    \* defs before the last action (history variable for C06_DefineOnce)
           F, INC,   \* ledgers: body -> coefficient (F additionally holds LAG_F)
           excl,     \* names excluded from income for this sector
@@ -210,8 +242,11 @@ SetRHS(a)      == a.op = "SR" /\ Room /\ defs[a.body].k # "absent"     \* else K
                   /\ Install(SetRHSOp(St, a), defs)
 Exclude(a)     == a.op = "EX" /\ Room /\ Install(ExcludeOp(St, a), defs)
 AddCashFlow(a) == a.op = "CF" /\ Room /\ Install(AddCashFlowOp(St, a), defs)
+AddVarFromEqn(a) == a.op = "AQ" /\ Room /\ Install(AddVarFromEqnOp(St, a), defs)
+AddTerm(a)     == a.op = "AT" /\ Room /\ defs[a.body].k # "absent"     \* else KeyError, nothing happens
+                  /\ Install(AddTermOp(St, a), defs)
 
-Do(a) == AddVariable(a) \/ SetRHS(a) \/ Exclude(a) \/ AddCashFlow(a)
+Do(a) == AddVariable(a) \/ SetRHS(a) \/ Exclude(a) \/ AddCashFlow(a) \/ AddVarFromEqn(a) \/ AddTerm(a)
 
 Next == \E a \in Alphabet : Do(a)
 
@@ -243,21 +278,24 @@ C06_INC == \A i \in 1..2 : DenINC(INC, Vals[i]) = ExpINC(log, i)
 (* Registering a flow never changes an existing definition; with a defining expression  *)
 (* (a real one: '' and '0.0' define nothing, '0' / '0.' are left out) it defines a flow   *)
 (* variable that was absent, empty or zero ('' / '0.0').  An existing '0' / '0.' is        *)
-(* neither protected nor required to be replaced.                                        *)
+(* neither protected nor required to be replaced.  "Existing definition" and "zero"      *)
+(* refer to the whole right-hand side: '' + Z + W is a definition, Z - Z is zero.         *)
 DefinesSomething(act) == act.op = "CF" /\ act.he /\ act.eqn \in RealDefs
-Protected(c) == c.k = "defined" /\ c.d \notin ZeroSpelled      \* an existing definition beyond doubt
+Doubtful(c)  == c.k = "defined" /\ c.d \in ZeroSpelled /\ NoTerms(c)     \* renders as '0' / '0.'
+Protected(c) == Eff(c) = "defined" /\ ~Doubtful(c)               \* an existing definition beyond doubt
 DefineOnceRel(before, after, act) ==
     act.op = "CF" =>
         /\ \A m \in FlowNames : Protected(before[m]) => after[m] = before[m]
         /\ (DefinesSomething(act) /\ Blank(before[act.body])) =>
-               after[act.body] = [k |-> "defined", d |-> act.eqn]
+               after[act.body] = ClassOfEqn(act.eqn)
 
 C06_DefineOnce == log # << >> => DefineOnceRel(pdefs, defs, log[Len(log)].a)
 
 (* consistency of the model's own bookkeeping *)
 LogExConsistent == \A i \in 1..Len(log) :
                       log[i].ex = (Registered(log, i) /\ ExcludedBefore(log, i))
-TypeOK == /\ defs \in [FlowNames -> DefStates] /\ pdefs \in [FlowNames -> DefStates]
+TypeOK == /\ DOMAIN defs = FlowNames /\ DOMAIN pdefs = FlowNames
+          /\ \A n \in FlowNames : IsDef(defs[n]) /\ IsDef(pdefs[n])
           /\ DOMAIN F = Bodies /\ DOMAIN INC = Bodies
           /\ excl \subseteq Bodies /\ exclO \subseteq ((Sectors \ {"S"}) \X Bodies)
           /\ Len(log) <= MaxLen
